@@ -252,6 +252,79 @@ def make_worker(tier):
     return work
 
 
+def graph_cases(tier):
+    """Import graphs over the files {main, a, b, c}: every file declares one struct and imports an ordered list
+    (repeats allowed) of the files after it.  Acyclic by construction, so the split must equal the single file that
+    declares the reachable structs: each exactly once, whatever the number of paths that reach it."""
+    names = ["main", "a", "b", "c"] if tier != "quick" else ["main", "a", "b"]
+    maxlen = 2
+    per_file = []
+    for i, nm in enumerate(names):
+        later = names[i + 1 :]
+        lists = [()]
+        for n in range(1, maxlen + 1):
+            lists += list(itertools.product(later, repeat=n))
+        # a module may also import the same later module three times in a row
+        lists += [(x, x, x) for x in later]
+        per_file.append(lists)
+    out = []
+    for combo in itertools.product(*per_file):
+        out.append(dict(zip(names, combo)))
+    return out
+
+
+def run_graphs(S, tier):
+    import shutil
+    import tempfile
+    from fcp.parser import get_fcp
+    from fcp.error import Logger
+
+    def work(chunk):
+        S2 = Stats()
+        td = tempfile.mkdtemp(prefix="fcpmc-c20g-")
+        try:
+            for g in chunk:
+                S2.count("states")
+                S2.count("transitions")
+                S2.count("executions")
+                S2.add("nontrivial", tuple(sorted(g.items())))
+                texts = {}
+                for nm, imports in g.items():
+                    texts[nm + ".fcp"] = 'version: "3"\n' + "".join("mod %s;\n" % i for i in imports) + "struct S_%s { x @0: u8, }\n" % nm
+                    open(os.path.join(td, nm + ".fcp"), "w").write(texts[nm + ".fcp"])
+                reach, todo = [], ["main"]
+                while todo:
+                    x = todo.pop()
+                    if x not in reach:
+                        reach.append(x)
+                        todo += list(g[x])
+                inp = {"files": texts, "family": "import-graph", "graph": {k: list(v) for k, v in g.items()}}
+                try:
+                    res = get_fcp(os.path.join(td, "main.fcp"), Logger({}))
+                except Exception as e:  # noqa
+                    S2.violation("C20.graph", "C20.graph/exception:%s" % type(e).__name__, inp, expected="Ok", actual=str(e)[:200])
+                    continue
+                if res.is_err():
+                    S2.add("outcomes", "graph-err")
+                    S2.violation("C20.graph", "C20.graph/acyclic-import-graph-rejected/%s" % repr(res.err().msg[0][0]).split(" of ")[0].split("'")[1][:24].replace(" ", "-"), inp, expected="Ok: structs of " + ",".join(sorted(reach)), actual=[m[0] for m in res.err().msg])
+                    continue
+                got = sorted(st.name for st in res.unwrap().structs)
+                want = sorted("S_" + x for x in reach)
+                if got != want:
+                    S2.add("outcomes", "graph-differs")
+                    S2.violation("C20.graph", "C20.graph/declarations-differ/%s" % ("duplicated" if len(got) > len(set(got)) else "missing-or-extra"), inp, expected=want, actual=got)
+                else:
+                    S2.add("outcomes", "graph-ok:%d" % len(want))
+        finally:
+            shutil.rmtree(td, ignore_errors=True)
+        return S2
+
+    gs = graph_cases(tier)
+    for s2 in pmap(work, chunks(gs, 200)):
+        S.merge(s2)
+    return len(gs)
+
+
 def run(tier):
     common.bind_repo()
     r = Run("C20", tier)
@@ -275,10 +348,11 @@ def run(tier):
     with WorkDirs():
         for s in pmap(make_worker(tier), chunks(list(enumerate(cases)), 30)):
             r.stats.merge(s)
+    r.bounds["import_graphs"] = run_graphs(r.stats, tier)
     r.rule = (
         "states = (base schema, assignment of its declarations to {main, m1, m2} closed under declare-before-use, topology star|chain, module path depth, position of each mod "
         "statement up to the point of first need) on a real scratch file tree, compared per category (multiset of to_dict items) with the single-file parse; plus, for every module of "
-        "every split (quick: every 8th split), each injected error {syntax, truncated, undeclared type, missing file}: must be Err naming the module file. all states non-trivial."
+        "every split (quick: every 8th split), each injected error {syntax, truncated, undeclared type, missing file}: must be Err naming the module file; plus every acyclic import graph over 3 (thorough 4) one-struct files with ordered import lists of length <= 2 (or one module three times): each reachable struct exactly once. all states non-trivial."
     )
     r.assumptions = ["order of declarations across files is not judged, only the multiset per category"]
     return r.finish()
